@@ -44,6 +44,9 @@ def run(ctx):
     # must not be left truncated-but-complete by a KeyboardInterrupt raised while its source is read
     from . import c04
     c04.r6_replay_buffer(ctx, rule="C02.R10", base=True)
+    # "re-runs using any execution configuration": the triples evaluated after the interruption get the experiment seed in worker processes as well
+    from . import c01
+    c01.r1_seed_marshalling(ctx, rule="C02.R11")
 
 
 # ------------------------------------------------------------------------------------------ R1
@@ -85,12 +88,12 @@ def r1_write_flush(ctx):
 
 
 # ------------------------------------------------------------------------------------------ R2
-def r2_append_batch(ctx):
-    ctx.rule("C02.R2", "Experiment.run writes results through DiskSink(result_file, batch=1) opened in append mode "
+def r2_append_batch(ctx, rule="C02.R2"):
+    ctx.rule(rule, "Experiment.run writes results through DiskSink(result_file, batch=1) opened in append mode "
                        "(one open/append/close per record; for .gz one complete member per record)")
     run = ctx.fn(EXP, "Experiment.run")
     sinks = find_calls(run, "DiskSink")
-    ctx.floor("C02.R2", "DiskSink constructions in Experiment.run", len(sinks), 1)
+    ctx.floor(rule, "DiskSink constructions in Experiment.run", len(sinks), 1)
     init = ctx.fn(SINKS, "DiskSink.__init__")
     enter = ctx.fn(SINKS, "DiskSink.__enter__")
     # default mode of DiskSink
@@ -105,24 +108,24 @@ def r2_append_batch(ctx):
         ctx.call_sites += 1
         mode = arg_or_kw(c, 1, "mode")
         m = const_str(mode) if mode is not None else default_mode
-        ctx.ob("C02.R2", EXP, "Experiment.run", c, "result sink opens the file in append mode (never truncates)",
+        ctx.ob(rule, EXP, "Experiment.run", c, "result sink opens the file in append mode (never truncates)",
                m is not None and m.startswith("a"), detail={"mode": m}, stmt="mode:" + unparse(c))
         b = arg_or_kw(c, 2, "batch")
         ok = isinstance(b, ast.Constant) and b.value == 1
-        ctx.ob("C02.R2", EXP, "Experiment.run", c, "result sink is constructed with batch=1", ok,
+        ctx.ob(rule, EXP, "Experiment.run", c, "result sink is constructed with batch=1", ok,
                detail={"batch": unparse(b) if b is not None else None}, stmt="batch:" + unparse(c))
         first = c.args[0] if c.args else kw(c, "filename")
-        ctx.ob("C02.R2", EXP, "Experiment.run", c, "result sink writes to result_file",
+        ctx.ob(rule, EXP, "Experiment.run", c, "result sink writes to result_file",
                first is not None and unparse(first) == "result_file", stmt="file:" + unparse(c))
     # __enter__ opens with the stored mode (binary), for gz and plain alike
     opens = [c for c in walk_shallow(enter) if isinstance(c, ast.Call) and call_name(c) in ("open", "gzip.open")]
-    ctx.floor("C02.R2", "open calls in DiskSink.__enter__", len(opens), 2)
+    ctx.floor(rule, "open calls in DiskSink.__enter__", len(opens), 2)
     for c in opens:
         modearg = arg_or_kw(c, 1, "mode")
         ok = modearg is not None and "self._mode" in unparse(modearg)
-        ctx.ob("C02.R2", SINKS, "DiskSink.__enter__", c, "file is opened with the constructor's mode", ok)
+        ctx.ob(rule, SINKS, "DiskSink.__enter__", c, "file is opened with the constructor's mode", ok)
     stores = [n for n in walk_shallow(init) if isinstance(n, ast.Assign) and any(is_self_attr(t, "_mode") for t in n.targets)]
-    ctx.ob("C02.R2", SINKS, "DiskSink.__init__", stores[0] if stores else init, "self._mode is the constructor's mode parameter",
+    ctx.ob(rule, SINKS, "DiskSink.__init__", stores[0] if stores else init, "self._mode is the constructor's mode parameter",
            bool(stores) and all(unparse(s.value) == "mode" for s in stores), stmt="self._mode store")
     # one open/close per batch: `with self:` sits inside the batch loop and encloses the write (for .gz this completes the member)
     wr = ctx.fn(SINKS, "DiskSink.write")
@@ -134,23 +137,23 @@ def r2_append_batch(ctx):
         batch_inside = any(isinstance(a, ast.While) for a in _ancestors(w)) and any(
             isinstance(x, ast.Assign) and has_call(x.value, "_get_batch") and any(a is aw for a in _ancestors(x) for aw in _ancestors(w) if isinstance(aw, ast.While)) for x in walk_shallow(wr))
         ok = ok or (in_batch_loop and has_write and batch_inside)
-    ctx.ob("C02.R2", SINKS, "DiskSink.write", withs[0] if withs else wr, "the file is opened and closed once per batch (`with self` inside the batch loop around the writes)", ok,
+    ctx.ob(rule, SINKS, "DiskSink.write", withs[0] if withs else wr, "the file is opened and closed once per batch (`with self` inside the batch loop around the writes)", ok,
            stmt="with self per batch")
     exit_ = ctx.fn(SINKS, "DiskSink.__exit__")
     ok = any(isinstance(c, ast.Call) and unparse(c.func) == "self._file.close" for c in walk_shallow(exit_)) and "self._count == 0" in unparse(exit_)
-    ctx.ob("C02.R2", SINKS, "DiskSink.__exit__", exit_, "leaving the outermost `with` closes the file", ok, stmt="__exit__ closes")
+    ctx.ob(rule, SINKS, "DiskSink.__exit__", exit_, "leaving the outermost `with` closes the file", ok, stmt="__exit__ closes")
     gb = ctx.fn(SINKS, "DiskSink._get_batch")
     ok = "islice(lines, self._batch)" in unparse(gb)
-    ctx.ob("C02.R2", SINKS, "DiskSink._get_batch", gb, "a batch holds at most self._batch lines", ok, stmt="_get_batch")
+    ctx.ob(rule, SINKS, "DiskSink._get_batch", gb, "a batch holds at most self._batch lines", ok, stmt="_get_batch")
     # the sink that is run is this sink: last element of the joined pipeline that is .run()
     runs = [c for c in walk_shallow(run) if isinstance(c, ast.Call) and isinstance(c.func, ast.Attribute) and c.func.attr == "run"
             and isinstance(c.func.value, ast.Call) and (call_name(c.func.value) or "").endswith("join")]
-    ctx.floor("C02.R2", "Pipes.join(...).run() in Experiment.run", len(runs), 1)
+    ctx.floor(rule, "Pipes.join(...).run() in Experiment.run", len(runs), 1)
     for c in runs:
         last = c.func.value.args[-1] if c.func.value.args else None
         vals = assigned_value(run, last.id) if isinstance(last, ast.Name) else []
         ok = bool(vals) and all(has_call(v, "DiskSink") for v in vals)
-        ctx.ob("C02.R2", EXP, "Experiment.run", c, "the pipeline's sink is the DiskSink/ListSink selected by result_file", ok)
+        ctx.ob(rule, EXP, "Experiment.run", c, "the pipeline's sink is the DiskSink/ListSink selected by result_file", ok)
 
 
 def _ancestors(n):
@@ -338,6 +341,17 @@ def r5_preamble(ctx):
             ok = True
     ctx.ob("C02.R5", EXP, "Experiment.run", enclosing_stmt(pre[0]) if pre else run,
            "the T0 (experiment) record is inserted exactly when the file does not hold one yet (fresh file, or a log cut before its experiment row)", ok, stmt="preamble choice")
+    # `restored.experiment` is the witness "the file already holds its experiment record": TransactionResult must leave it EMPTY unless it read such a record
+    tr = ctx.fn(RES, "TransactionResult.filter")
+    rets = [r for r in ast.walk(tr) if isinstance(r, ast.Return) and isinstance(r.value, ast.Call) and call_name(r.value) == "Result" and len(r.value.args) >= 5]
+    EXPD = unparse(rets[0].value.args[4]) if rets else "exp_dict"
+    stores = [x for x in ast.walk(tr) if isinstance(x, ast.Assign) and any(unparse(t) == EXPD for t in x.targets)]
+    init = [x for x in stores if not any(isinstance(a, (ast.For, ast.While)) for a in ancestors(x))]
+    later = [x for x in stores if x not in init]
+    ok_i = len(init) == 1 and isinstance(init[0].value, ast.Dict) and not init[0].value.keys
+    ok_l = bool(later) and all(any(pol and "'experiment'" in unparse(t) for t, pol in guards_of(x, tr)) for x in later)
+    ctx.ob("C02.R5", RES, "TransactionResult.filter", init[0] if init else tr, "the restored experiment description starts empty and is filled only from an 'experiment' record "
+           "(otherwise a log cut after its version line would never get its experiment record)", ok_i and ok_l, detail={"initial": unparse(init[0].value) if init else None}, stmt="experiment dict only from its record")
     enc = ctx.fn(RES, "TransactionEncode.filter")
     vys = [n for n in walk_shallow(enc) if isinstance(n, ast.Yield) and n.value is not None and "version" in unparse(n.value)]
     ctx.floor("C02.R5", "version yield in TransactionEncode.filter", len(vys), 1)
@@ -580,6 +594,9 @@ def r9_sink_context_owner(ctx, rule="C02.R9"):
 
 
 CONTROLS = [
+    ("worker store built from explicit keys", "coba/multiprocessing.py", M.replace_expr("CobaMultiprocessor.filter",
+        "{'openml_semaphore': spawn_context.Semaphore(3), **CobaContext.store}", "{'openml_semaphore': spawn_context.Semaphore(3), 'experiment_seed': CobaContext.store.get('seed')}"), "C02.R11"),
+    ("restored experiment description is never empty", RES, M.replace_stmt("TransactionResult.filter", M.simple_has("exp_dict = {}"), "exp_dict = {'version': 4}"), "C02.R5"),
     ("Cache resets on Exception only", "coba/pipes/filters.py", _except_exception, "C02.R10"),
     ("SourceSink keeps the sink entered for the whole run", "coba/pipes/lines.py", M.replace_stmt("SourceSink.run", M.text_has("sink.write(item)"), "with sink:\n    sink.write(item)"), "C02.R9"),
     ("empty result file is restored from", EXP, M.replace_expr("Experiment.run", "result_file and Path(result_file).exists() and (Path(result_file).stat().st_size > 0)", "result_file and Path(result_file).exists()"), "C02.R5"),
